@@ -1170,7 +1170,6 @@ func runC07(c *Ctx) {
 	routeLiteralFidelity(c, "C07-R9", "QueryParams", "parseQueryParamDecl")
 }
 
-
 // validationWrapper: fn reaches ValidateObjectAgainstTypeDef and, with the no-contract edges (InputType == nil, not a
 // NamedType, unknown type definition) and the validator's err==nil edge deleted, no return with a nil error is reachable:
 // a nil error from fn means "validated, or no contract applies".
